@@ -16,8 +16,8 @@ func init() {
 	Registry["C10"] = c10
 	Metas["C10"] = Meta{Level: "translation_validation", NeedCG: false, Ref: true,
 		Technique: "translation validation: token- and name-resolution equivalence of every function of eth/core/vm and of its dependency closure (constants by value, types, variables, callees; byte equality of C/assembly sources) against go-ethereum v1.8.27 from the module cache, with a reviewed deviation table and table rules for the documented deviations",
-		Explain: "Translation validation of the in-tree EVM against the oracle the property names (go-ethereum v1.8.27, Constantinople rules). Every function of eth/core/vm is either EQUIVALENT to its namesake — identical token sequence and every identifier resolving to the corresponding object, with all referenced constants (by exact value), types, variables and callees of the eth tree compared in turn, and the C/assembly sources of the crypto dependencies byte-identical — or it is a row of the reviewed deviation table, decided by its own rule: (R2) NewEVMInterpreter forces the Constantinople jump table; (R3) Run meters every operation against the per-transaction budget before executing it and falls back to the reference gas function exactly when no base cost is defined; (R4) the precompile map is the Byzantium set plus the governance contract at 0xfe and is consulted unconditionally; (R5) the jump tables equal the reference's except for the added baseGasCost field on the four CALL-family opcodes. (R8) the same for eth/params, eth/core/vm/runtime and the transaction-execution functions of eth/core (ApplyTransaction, ApplyMessage, StateTransition.*, NewEVMContext, Transfer, ...), with the Constantinople gas table / Byzantium receipt form / zero COINBASE deviations pinned to exact edits; (R7) each deliberately differing type or variable equals the reference declaration plus exactly its reviewed edit; (R6) the C and assembly sources of the crypto dependencies are byte-identical. `programs` = functions compared, `disagreements_checked` = functions that differ and were decided by a deviation row. The procedure is sound and incomplete: an edit it cannot see through is reported and needs a reviewed row. NOT decided: behaviour of the deviating functions beyond R2-R5; correctness of the reference itself.",
-		Assume: []string{"go-ethereum v1.8.27 in the module cache is the reference semantics", "packages log and metrics do not influence EVM results (opaque)"},
+		Explain:   "Translation validation of the in-tree EVM against the oracle the property names (go-ethereum v1.8.27, Constantinople rules). Every function of eth/core/vm is either EQUIVALENT to its namesake — identical token sequence and every identifier resolving to the corresponding object, with all referenced constants (by exact value), types, variables and callees of the eth tree compared in turn, and the C/assembly sources of the crypto dependencies byte-identical — or it is a row of the reviewed deviation table, decided by its own rule: (R2) NewEVMInterpreter forces the Constantinople jump table; (R3) Run meters every operation against the per-transaction budget before executing it and falls back to the reference gas function exactly when no base cost is defined; (R4) the precompile map is the Byzantium set plus the governance contract at 0xfe and is consulted unconditionally; (R5) the jump tables equal the reference's except for the added baseGasCost field on the four CALL-family opcodes. (R8) the same for eth/params, eth/core/vm/runtime and the transaction-execution functions of eth/core (ApplyTransaction, ApplyMessage, StateTransition.*, NewEVMContext, Transfer, ...), with the Constantinople gas table / Byzantium receipt form / zero COINBASE deviations pinned to exact edits; (R7) each deliberately differing type or variable equals the reference declaration plus exactly its reviewed edit; (R6) the C and assembly sources of the crypto dependencies are byte-identical. `programs` = functions compared, `disagreements_checked` = functions that differ and were decided by a deviation row. The procedure is sound and incomplete: an edit it cannot see through is reported and needs a reviewed row. NOT decided: behaviour of the deviating functions beyond R2-R5; correctness of the reference itself.",
+		Assume:    []string{"go-ethereum v1.8.27 in the module cache is the reference semantics", "packages log and metrics do not influence EVM results (opaque)"},
 	}
 }
 
@@ -37,12 +37,12 @@ var c10Assume = []string{
 	"eth/core/vm::newByzantiumInstructionSet", "eth/core/vm::newConstantinopleInstructionSet", "eth/core/vm::newHomesteadInstructionSet", "eth/core/vm::newFrontierInstructionSet",
 	"eth/core/vm::var:byzantiumInstructionSet", "eth/core/vm::var:constantinopleInstructionSet", "eth/core/vm::var:homesteadInstructionSet", "eth/core/vm::var:frontierInstructionSet",
 	"eth/core/vm::NewJSONLogger",
-	"eth/params::type:Rules",                         // no IsPetersburg at the fork point
-	"eth/params::(*ChainConfig).Rules",               // idem
-	"eth/params::(*ChainConfig).GasTable",            // Constantinople table forced
+	"eth/params::type:Rules",                                     // no IsPetersburg at the fork point
+	"eth/params::(*ChainConfig).Rules",                           // idem
+	"eth/params::(*ChainConfig).GasTable",                        // Constantinople table forced
 	"eth/params::var:Version", "eth/params::var:VersionWithMeta", // version string (1.8.21 vs 1.8.27)
 	"eth/core/types::type:Header", "eth/core/types::CopyHeader",
-	"eth/core::type:ChainContext", // no Engine() in the AnnChain chain context
+	"eth/core::type:ChainContext",                // no Engine() in the AnnChain chain context
 	"eth/params::(*ChainConfig).checkCompatible", // version drift in the header type (not used by the EVM beyond Number/Time/Difficulty/GasLimit/Coinbase)
 }
 
@@ -57,40 +57,7 @@ func c10(c *Ctx) {
 	setAssume(eq, c10Assume)
 	setAssume(eq, c11Assume)
 	rule := c.R.Rule("R1", "every function of eth/core/vm is equivalent (tokens + resolved identifiers + dependency closure) to its namesake in go-ethereum v1.8.27, or is a reviewed deviation row", 200)
-	byz := "precompiles := PrecompiledContractsHomestead if evm . ChainConfig ( ) . IsByzantium ( evm . BlockNumber ) { precompiles = PrecompiledContractsByzantium }"
-	dev := map[string]Deviation{
-		"NewEVMInterpreter": {Reason: "R2: forces the Constantinople table for every block number (documented deviation)", Patch: []PatchStep{
-			{Ref: "cfg . JumpTable = frontierInstructionSet }", Tree: "cfg . JumpTable = frontierInstructionSet } cfg . JumpTable = constantinopleInstructionSet"}}},
-		"(*EVMInterpreter).Run": {Reason: "R3: every operation is charged against the fixed per-transaction budget before it executes (documented deviation)", Patch: []PatchStep{
-			{Ref: "operation . gasCost ( in . gasTable ,", Tree: "opBaseGasCall ( operation , in . gasTable ,"},
-			{Ref: "! contract . UseGas ( cost )", Tree: "! useGas ( & in . evm . gasLeft , cost )"}}},
-		"run": {Reason: "R4: Byzantium precompile set for every block; precompiles charged against the fixed budget; governance contract gets the state", Patch: []PatchStep{
-			{Ref: byz, Tree: "precompiles := PrecompiledContractsByzantium"},
-			{Ref: "return RunPrecompiledContract ( p , input , contract )", Tree: "gas := p . RequiredGas ( input ) if useGas ( & evm . gasLeft , gas ) { ap , ok := p . ( * AdminOP ) if ok { ap . SetState ( evm . StateDB ) } return p . Run ( input ) } return nil , ErrOutOfGas"}}},
-		"(*EVM).Call": {Reason: "R4: Byzantium precompile set for every block", Patch: []PatchStep{{Ref: byz, Tree: "precompiles := PrecompiledContractsByzantium"}}},
-		"NewEVM": {Reason: "initialises the per-transaction budget from Config.EVMGasLimit", Patch: []PatchStep{
-			{Ref: "interpreters : make ( [ ] Interpreter , 0 , 1 ) ,", Tree: "interpreters : make ( [ ] Interpreter , 0 , 1 ) , gasLeft : vmConfig . EVMGasLimit ,"}}},
-		"gasSStore": {Reason: "version drift: Petersburg does not exist at the fork point; Constantinople net-metering kept (the property fixes Constantinople rules)", Patch: []PatchStep{
-			{Ref: "evm . chainRules . IsPetersburg || ! evm . chainRules . IsConstantinople", Tree: "! evm . chainRules . IsConstantinople"}}},
-		"NewJSONLogger": {Reason: "tracer construction (version drift: reference sets a default config), not on the execution path"},
-		"newByzantiumInstructionSet": {Reason: "R5: adds the base-cost function on STATICCALL", Patch: []PatchStep{
-			{Ref: "gasCost : gasStaticCall ,", Tree: "gasCost : gasStaticCall , baseGasCost : baseGasStaticCall ,"}}},
-		"newHomesteadInstructionSet": {Reason: "R5: adds the base-cost function on DELEGATECALL", Patch: []PatchStep{
-			{Ref: "gasCost : gasDelegateCall ,", Tree: "gasCost : gasDelegateCall , baseGasCost : baseGasDelegateCall ,"}}},
-		"newFrontierInstructionSet": {Reason: "R5: adds the base-cost function on CALL and CALLCODE", Patch: []PatchStep{
-			{Ref: "gasCost : gasCall ,", Tree: "gasCost : gasCall , baseGasCost : baseGasCall ,"},
-			{Ref: "gasCost : gasCallCode ,", Tree: "gasCost : gasCallCode , baseGasCost : baseGasCallCode ,"}}},
-		// AnnChain-only functions
-		"(*AdminDBApp).From": {Reason: "governance precompile (documented addition)"}, "(*AdminDBApp).GetNonce": {Reason: "governance precompile"},
-		"(*AdminOP).RequiredGas": {Reason: "governance precompile"}, "(*AdminOP).Run": {Reason: "governance precompile; input discipline decided by C09-R3"},
-		"(*AdminOP).SetCallback": {Reason: "governance precompile"}, "(*AdminOP).SetState": {Reason: "governance precompile"},
-		"(*EVM).GasLeft": {Reason: "accessor of the per-transaction budget"},
-		"Disasm": {Reason: "debug helper, not on the execution path"}, "Disassemble": {Reason: "debug helper, not on the execution path"},
-		"baseGasCall": {Reason: "fixed-budget metering: CALL cost without the forwarded gas"}, "baseGasCallCode": {Reason: "fixed-budget metering"},
-		"baseGasDelegateCall": {Reason: "fixed-budget metering"}, "baseGasStaticCall": {Reason: "fixed-budget metering"},
-		"opBaseGasCall": {Reason: "fixed-budget metering helper", Check: c10OpBase},
-		"useGas":        {Reason: "fixed-budget metering helper", Check: c10UseGas},
-	}
+	dev := c10VMDeviations()
 	n, d := equivPackage(c, rule, "eth/core/vm", dev, map[string]string{})
 	for i, rel := range []string{"eth/params", "eth/core/vm/runtime", "eth/core"} {
 		r2 := c.R.Rule("R8."+string(rune('a'+i)), "every function of "+rel+" (for eth/core: the transaction-execution functions the application calls) is equivalent to its namesake in go-ethereum v1.8.27 or is a reviewed deviation row", 5)
@@ -244,4 +211,54 @@ var c10MissingOK = map[string]map[string]string{
 	"eth/params":          {"(*ChainConfig).IsPetersburg": "version drift: Petersburg was added after the fork point; the property fixes Constantinople rules"},
 	"eth/core/vm/runtime": {},
 	"eth/core":            {},
+}
+
+// c10VMDeviations: the reviewed deviation rows of eth/core/vm (each a patch against the reference).
+func c10VMDeviations() map[string]Deviation {
+	byz := "precompiles := PrecompiledContractsHomestead if evm . ChainConfig ( ) . IsByzantium ( evm . BlockNumber ) { precompiles = PrecompiledContractsByzantium }"
+	dev := map[string]Deviation{
+		"NewEVMInterpreter": {Reason: "R2: forces the Constantinople table for every block number (documented deviation)", Patch: []PatchStep{
+			{Ref: "cfg . JumpTable = frontierInstructionSet }", Tree: "cfg . JumpTable = frontierInstructionSet } cfg . JumpTable = constantinopleInstructionSet"}}},
+		"(*EVMInterpreter).Run": {Reason: "R3: every operation is charged against the fixed per-transaction budget before it executes (documented deviation)", Patch: []PatchStep{
+			{Ref: "operation . gasCost ( in . gasTable ,", Tree: "opBaseGasCall ( operation , in . gasTable ,"},
+			{Ref: "! contract . UseGas ( cost )", Tree: "! useGas ( & in . evm . gasLeft , cost )"}}},
+		"run": {Reason: "R4: Byzantium precompile set for every block; precompiles charged against the fixed budget; governance contract gets the state", Patch: []PatchStep{
+			{Ref: byz, Tree: "precompiles := PrecompiledContractsByzantium"},
+			{Ref: "return RunPrecompiledContract ( p , input , contract )", Tree: "gas := p . RequiredGas ( input ) if useGas ( & evm . gasLeft , gas ) { ap , ok := p . ( * AdminOP ) if ok { ap . SetState ( evm . StateDB ) } return p . Run ( input ) } return nil , ErrOutOfGas"}}},
+		"(*EVM).Call": {Reason: "R4: Byzantium precompile set for every block", Patch: []PatchStep{{Ref: byz, Tree: "precompiles := PrecompiledContractsByzantium"}}},
+		"NewEVM": {Reason: "initialises the per-transaction budget from Config.EVMGasLimit", Patch: []PatchStep{
+			{Ref: "interpreters : make ( [ ] Interpreter , 0 , 1 ) ,", Tree: "interpreters : make ( [ ] Interpreter , 0 , 1 ) , gasLeft : vmConfig . EVMGasLimit ,"}}},
+		"gasSStore": {Reason: "version drift: Petersburg does not exist at the fork point; Constantinople net-metering kept (the property fixes Constantinople rules)", Patch: []PatchStep{
+			{Ref: "evm . chainRules . IsPetersburg || ! evm . chainRules . IsConstantinople", Tree: "! evm . chainRules . IsConstantinople"}}},
+		"NewJSONLogger": {Reason: "tracer construction (version drift: reference sets a default config), not on the execution path"},
+		"newByzantiumInstructionSet": {Reason: "R5: adds the base-cost function on STATICCALL", Patch: []PatchStep{
+			{Ref: "gasCost : gasStaticCall ,", Tree: "gasCost : gasStaticCall , baseGasCost : baseGasStaticCall ,"}}},
+		"newHomesteadInstructionSet": {Reason: "R5: adds the base-cost function on DELEGATECALL", Patch: []PatchStep{
+			{Ref: "gasCost : gasDelegateCall ,", Tree: "gasCost : gasDelegateCall , baseGasCost : baseGasDelegateCall ,"}}},
+		"newFrontierInstructionSet": {Reason: "R5: adds the base-cost function on CALL and CALLCODE", Patch: []PatchStep{
+			{Ref: "gasCost : gasCall ,", Tree: "gasCost : gasCall , baseGasCost : baseGasCall ,"},
+			{Ref: "gasCost : gasCallCode ,", Tree: "gasCost : gasCallCode , baseGasCost : baseGasCallCode ,"}}},
+		// AnnChain-only functions
+		"(*AdminDBApp).From": {Reason: "governance precompile (documented addition)"}, "(*AdminDBApp).GetNonce": {Reason: "governance precompile"},
+		"(*AdminOP).RequiredGas": {Reason: "governance precompile"}, "(*AdminOP).Run": {Reason: "governance precompile; input discipline decided by C09-R3"},
+		"(*AdminOP).SetCallback": {Reason: "governance precompile"}, "(*AdminOP).SetState": {Reason: "governance precompile"},
+		"(*EVM).GasLeft": {Reason: "accessor of the per-transaction budget"},
+		"Disasm":         {Reason: "debug helper, not on the execution path"}, "Disassemble": {Reason: "debug helper, not on the execution path"},
+		"baseGasCall": {Reason: "fixed-budget metering: CALL cost without the forwarded gas"}, "baseGasCallCode": {Reason: "fixed-budget metering"},
+		"baseGasDelegateCall": {Reason: "fixed-budget metering"}, "baseGasStaticCall": {Reason: "fixed-budget metering"},
+		"opBaseGasCall": {Reason: "fixed-budget metering helper", Check: c10OpBase},
+		"useGas":        {Reason: "fixed-budget metering helper", Check: c10UseGas},
+	}
+	return dev
+}
+
+// vmEquivShared (C05 / C09 / C14 as "C10.R1"): the EVM the application executes with is the reference's.
+func vmEquivShared(c *Ctx) {
+	eq := c.Equiv()
+	setAssume(eq, c10Assume)
+	setAssume(eq, c11Assume)
+	rule := c.R.Rule("R1", "every function of eth/core/vm is equivalent (tokens + resolved identifiers + dependency closure) to its namesake in go-ethereum v1.8.27, or is a reviewed deviation row whose patch against the reference is checked", 200)
+	equivPackage(c, rule, "eth/core/vm", c10VMDeviations(), map[string]string{})
+	r2 := c.R.Rule("R8.c", "the transaction-execution functions of eth/core the application calls are equivalent to the reference or reviewed deviations", 5)
+	equivPackageSel(c, r2, "eth/core", c10DevOther["eth/core"], c10MissingOK["eth/core"], c10Only["eth/core"])
 }
